@@ -30,5 +30,11 @@ func runDirected(res *core.CaseResult, c core.CaseDesc) {
 	case 3:
 		s.target = gen.Op{Kind: "add", States: []string{"A"}}
 		judge(res, s, faultSpec{At: pos{0, "AnyEnter", 0}, Kind: "panic-err", Persistent: true}, nil)
+	case 4: // a final handler stalls beyond the deadline and returns later
+		s.target = gen.Op{Kind: "add", States: []string{"A"}}
+		judge(res, s, faultSpec{At: pos{0, "AState", 0}, Kind: "deadline"}, nil)
+	case 5: // a negotiation handler stalls beyond the deadline and returns later
+		s.target = gen.Op{Kind: "add", States: []string{"A"}}
+		judge(res, s, faultSpec{At: pos{0, "AEnter", 0}, Kind: "deadline"}, nil)
 	}
 }
